@@ -1,3 +1,4 @@
 import TinyFlux.Audit.Tool
 import TinyFlux.Props.C06
+import TinyFlux.Props.C06State
 #audit TinyFlux.Props.C06
